@@ -21,7 +21,7 @@ VERIF = os.path.dirname(os.path.dirname(os.path.abspath(__file__)))
 REPO = os.environ.get("VERIF_REPO", "/repo")
 SPEC = os.path.join(VERIF, "spec")
 CACHE = os.path.join(VERIF, ".cache")
-EVID = os.path.join(VERIF, "evidence")
+EVID = os.environ.get("VERIF_EVIDENCE_DIR") or os.path.join(VERIF, "evidence")
 TLA_CP = "/opt/veriftools/tla/tla2tools.jar:/opt/veriftools/tla/CommunityModules-deps.jar"
 NCPU = os.cpu_count() or 8
 
@@ -327,4 +327,86 @@ def corpus_pipeline(family, n, sd, tags=""):
         with open(path + ".tmp", "w") as fh:
             json.dump(res, fh)
         os.replace(path + ".tmp", path)
+        return res
+
+
+# ---------------------------------------------------------------------------
+# set package pipeline: Gen histories (TLC) -> setrun (real package) -> Judge (TLC, abstract sets)
+
+def build_tool(name):
+    """Build harness/<name> against /repo's working tree (replace => /repo)."""
+    out = os.path.join(cache_dir(), name)
+    with Lock("build-" + name):
+        if os.path.exists(out):
+            return out
+        r = subprocess.run(["go", "build", "-o", out + ".tmp", "./" + name], cwd=os.path.join(VERIF, "harness"),
+                           env=go_env(), capture_output=True, text=True)
+        if r.returncode != 0:
+            raise Infra(f"go build of harness/{name} against /repo failed (the change does not compile?):\n" + r.stdout + r.stderr)
+        os.replace(out + ".tmp", out)
+    return out
+
+
+def set_pipeline(family, n, sd, u, k):
+    key = f"set_{family}_{n}_{sd}_{u}_{k}_{harness_hash()}.json"
+    path = os.path.join(cache_dir(), key)
+    with Lock("set-" + family):
+        if os.path.exists(path):
+            with open(path) as fh:
+                return json.load(fh)
+        work = scratch("verif-set-")
+        chunks = NCPU
+        g = run_tlc("GenSet", "GenSet.cfg", env=dict(GEN_FAMILY=family, GEN_SEED=sd, GEN_N=n, GEN_CHUNKS=chunks, GEN_OUT=work, GEN_U=u, GEN_K=k), timeout=1800)
+        tool = build_tool("setrun")
+        joined = os.path.join(work, "joined.ndjson")
+        r = subprocess.run([tool, "-scen", os.path.join(work, "hist_*.ndjson"), "-out", joined], capture_output=True, text=True)
+        if r.returncode != 0:
+            raise Infra("setrun failed:\n" + r.stdout + r.stderr)
+        log("[vlib]", r.stderr.strip())
+        nh = int(re.search(r"(\d+) histories", r.stderr).group(1))
+        vdir = os.path.join(work, "verdict")
+        os.makedirs(vdir)
+        j = run_tlc("JudgeSet", "JudgeSet.cfg", env=dict(JUDGE_IN=joined, JUDGE_OUT=vdir, JUDGE_CHUNKS=chunks), timeout=3600)
+        files = sorted(glob.glob(os.path.join(vdir, "verdict_*.ndjson")))
+        if len(files) != chunks:
+            raise Infra("judge did not write every chunk")
+        recs = []
+        for p in files:
+            recs += read_ndjson(p)
+        stats = [x for x in recs if x["kind"] == "stat"]
+        if len(stats) != nh:
+            raise Infra(f"judge judged {len(stats)} histories, {nh} were replayed")
+        mis = [x for x in recs if x["kind"] == "mis"]
+        for m in mis:
+            m["family"], m["seed"], m["u"] = family, sd, u
+        sample = []
+        with open(joined) as fh:
+            for line in fh:
+                sample.append(json.loads(line)["h"])
+                if len(sample) >= 2:
+                    break
+        res = dict(verdicts=mis, histories=nh, steps=sum(x["steps"] for x in stats), nontrivial=sum(x["nontrivial"] for x in stats),
+                   samples=sample, tlc=[dict(step="gen", states=g["states"], wall=round(g["wall"], 1)), dict(step="judge", states=j["states"], wall=round(j["wall"], 1))])
+        shutil.rmtree(work, ignore_errors=True)
+        with open(path + ".tmp", "w") as fh:
+            json.dump(res, fh)
+        os.replace(path + ".tmp", path)
+        return res
+
+
+def model_check(module, cfg, timeout=1800, expect_ok=True):
+    """Exhaustive TLC run of a design-level configuration (L0). Cached by spec content."""
+    key = os.path.join(CACHE, f"mc_{module}_{cfg}_{harness_hash()}.json")
+    with Lock("mc-" + cfg):
+        if os.path.exists(key):
+            with open(key) as fh:
+                return json.load(fh)
+        r = run_tlc(module, cfg, timeout=timeout, check=False)
+        ok = r["rc"] == 0 and "No error has been found" in r["out"]
+        res = dict(module=module, cfg=cfg, ok=ok, states=r["states"], distinct=r["distinct"], wall=round(r["wall"], 1),
+                   tail=r["out"][-1500:] if not ok else "")
+        if expect_ok and not ok:
+            raise Infra(f"L0 model check {cfg} failed (specification error, not a verdict about the code):\n" + r["out"][-3000:])
+        with open(key, "w") as fh:
+            json.dump(res, fh)
         return res
